@@ -392,7 +392,7 @@ def check_c12(tier, seed):
                 'x {shared Builder, fresh Builder}; each history is executed in one interpreter with deep digests of model and '
                 'configuration before/after every build; reference outputs come from one fresh child interpreter per '
                 '(document, configuration); BuildHistoryTrace.tla requires every event to repeat the inferred function and '
-                'the support files to equal the stand-alone generated ones.')
+                'the support files to equal the stand-alone generated ones. Also: builds with padded / blank-only / multi-line copyright and creator texts leave the configuration as given. The documents use look-alike port names (p1, p01, P1 / r1, r01, R1).')
     res = chk.tlc('BuildHistoryMC', 'BuildHistory_history.cfg' if tier == 'quick' else 'BuildHistory_history3.cfg',
                   workers=8, timeout=3000)
     hists = [e['hist'] for e in res.emitted()]
